@@ -25,7 +25,13 @@ type Built struct {
 	GenOut  string // yardl's output (warnings)
 }
 
-func (b *Built) Cleanup() { os.RemoveAll(b.Root) }
+func (b *Built) Cleanup() {
+	if os.Getenv("VERIF_KEEP_DIRS") != "" { // debugging aid
+		fmt.Fprintln(os.Stderr, "kept:", b.Root)
+		return
+	}
+	os.RemoveAll(b.Root)
+}
 
 type BuildOpts struct {
 	Python bool
